@@ -294,7 +294,7 @@ def run(tier, seed):
     # units with one definition in a type without reference unit, an ISO
     # code declared directly and registered afterwards
     plans.append((['n1/x0', 'n1/x0b', 'JPYhand', '!JPYreg', '!dupsym',
-                   'n1/x1', 'Tok', 'TokCHF'], 5 if tier == 'thorough' else 4,
+                   'n1/x1', 'Tok', 'TokCHF', 'Tok2', 'Tok2SEK'], 5 if tier == 'thorough' else 4,
                   [ROOTS[3]]))
     for names, depth, roots in plans:
         for root in roots:
